@@ -631,6 +631,13 @@ func checkFieldBuffersReset(p *core.Program, r *core.Report, pkgs ...string) {
 func checkBBC(p *core.Program, r *core.Report) {
 	checkServiceSends(p, r, bbcPkg, "Connector")
 	checkBBCExpiry(p, r)
+	// Send is called by the Core's handler, the retry job and the agents' submissions at once: the transmission ID is
+	// taken and advanced, and the fragments of one transmission are queued, under one lock - two transmissions with one
+	// ID interleave on the shared medium and every receiver rejects both
+	gb := newGuardedEngine(p)
+	nTid := gb.checkGuarded(r, []guardedField{{bbcPkg, "Connector", "tid", "pkg/cla/bbc.Connector.sendMutex"}}, false)
+	r.Count("accesses to Connector.tid", nTid)
+	r.Min("accesses to Connector.tid", 2)
 	rf := p.Func(bbcPkg, "IncomingTransmission", "ReadFragment")
 	// payload append guarded by the four checks
 	nApp := 0
